@@ -8,7 +8,7 @@ package cargo
 //@ func compareInt
 //@   comparator a ~ b                                     [C01]
 //@   ensures result == 0 ==> a == b                       [C01]
-//@   ensures result == (a < b ? -1 : (a > b ? 1 : 0))     [C03 C08]
+//@   ensures result == (a < b ? -1 : (a > b ? 1 : 0))     [C03 C08 C20]
 
 // SemVer 2.0.0 section 11.4 on two identifiers (numeric identifiers are restricted to 18 digits, as in the property).
 //@ spec numericId(x string) bool = isdigits(x)
@@ -26,9 +26,9 @@ package cargo
 
 //@ func (*Version).Compare
 //@   comparator v ~ other                                 [C01]
-//@   ensures major: v.major != other.major ==> result == (v.major < other.major ? -1 : 1)                                             [C03 C08]
-//@   ensures minor: v.major == other.major && v.minor != other.minor ==> result == (v.minor < other.minor ? -1 : 1)                   [C03 C08]
-//@   ensures patch: v.major == other.major && v.minor == other.minor && v.patch != other.patch ==> result == (v.patch < other.patch ? -1 : 1)   [C03 C08]
+//@   ensures major: v.major != other.major ==> result == (v.major < other.major ? -1 : 1)                                             [C03 C08 C20]
+//@   ensures minor: v.major == other.major && v.minor != other.minor ==> result == (v.minor < other.minor ? -1 : 1)                   [C03 C08 C20]
+//@   ensures patch: v.major == other.major && v.minor == other.minor && v.patch != other.patch ==> result == (v.patch < other.patch ? -1 : 1)   [C03 C08 C20]
 //@   ensures both-release: v.major == other.major && v.minor == other.minor && v.patch == other.patch && v.prerelease == "" && other.prerelease == "" ==> result == 0   [C03 C08]
 //@   ensures release-wins: v.major == other.major && v.minor == other.minor && v.patch == other.patch && v.prerelease == "" && other.prerelease != "" ==> result == 1   [C03 C08]
 //@   ensures prerelease-loses: v.major == other.major && v.minor == other.minor && v.patch == other.patch && v.prerelease != "" && other.prerelease == "" ==> result == -1   [C03 C08]
@@ -108,10 +108,21 @@ package cargo
 //@ spec nn(v *Version) bool = v.major >= 0 && v.minor >= 0 && v.patch >= 0
 
 //@ func satisfiesCaretConstraint
-//@   ensures caret-major: nn(version) && nn(constraint) && (constraint.major > 0 || precision == 1) && constraint.major < 9223372036854775807 ==> result == (version.Compare(constraint) >= 0 && below(version, constraint.major + 1, 0, 0))   [C05]
-//@   ensures caret-minor: nn(version) && nn(constraint) && constraint.major == 0 && precision != 1 && (constraint.minor > 0 || precision == 2) && constraint.minor < 9223372036854775807 ==> result == (version.Compare(constraint) >= 0 && below(version, 0, constraint.minor + 1, 0))   [C05]
-//@   ensures caret-patch: nn(version) && nn(constraint) && constraint.major == 0 && constraint.minor == 0 && precision != 1 && precision != 2 && constraint.patch >= 0 && constraint.patch < 9223372036854775807 ==> result == (version.Compare(constraint) >= 0 && below(version, 0, 0, constraint.patch + 1))   [C05]
+//@   ensures caret-major: nn(version) && nn(constraint) && (constraint.major > 0 || precision == 1) && constraint.major < 9223372036854775807 ==> result == (version.Compare(constraint) >= 0 && below(version, constraint.major + 1, 0, 0))   [C05 C20]
+//@   ensures caret-minor: nn(version) && nn(constraint) && constraint.major == 0 && precision != 1 && (constraint.minor > 0 || precision == 2) && constraint.minor < 9223372036854775807 ==> result == (version.Compare(constraint) >= 0 && below(version, 0, constraint.minor + 1, 0))   [C05 C20]
+//@   ensures caret-patch: nn(version) && nn(constraint) && constraint.major == 0 && constraint.minor == 0 && precision != 1 && precision != 2 && constraint.patch >= 0 && constraint.patch < 9223372036854775807 ==> result == (version.Compare(constraint) >= 0 && below(version, 0, 0, constraint.patch + 1))   [C05 C20]
 
 //@ func satisfiesTildeConstraint
-//@   ensures tilde-major: nn(version) && nn(constraint) && precision == 1 && constraint.major >= 0 && constraint.major < 9223372036854775807 ==> result == (version.Compare(constraint) >= 0 && below(version, constraint.major + 1, 0, 0))   [C05]
-//@   ensures tilde-minor: nn(version) && nn(constraint) && precision != 1 && constraint.minor >= 0 && constraint.minor < 9223372036854775807 ==> result == (version.Compare(constraint) >= 0 && below(version, constraint.major, constraint.minor + 1, 0))   [C05]
+//@   ensures tilde-major: nn(version) && nn(constraint) && precision == 1 && constraint.major >= 0 && constraint.major < 9223372036854775807 ==> result == (version.Compare(constraint) >= 0 && below(version, constraint.major + 1, 0, 0))   [C05 C20]
+//@   ensures tilde-minor: nn(version) && nn(constraint) && precision != 1 && constraint.minor >= 0 && constraint.minor < 9223372036854775807 ==> result == (version.Compare(constraint) >= 0 && below(version, constraint.major, constraint.minor + 1, 0))   [C05 C20]
+
+// ---- C20 for the shorthand operators: versions that compare equal are treated alike, and the accepted set is convex
+//@ lemma c20-caret-equal [C20] uses satisfiesCaretConstraint, (*Version).Compare: forall c, v1, v2 *Version, p int :: trigger(satisfiesCaretConstraint(v1, c, p), satisfiesCaretConstraint(v2, c, p)) && c != nil && v1 != nil && v2 != nil && nn(c) && nn(v1) && nn(v2) && c.major < 9223372036854775807 && c.minor < 9223372036854775807 && c.patch < 9223372036854775807 && v1.Compare(v2) == 0 ==> satisfiesCaretConstraint(v1, c, p) == satisfiesCaretConstraint(v2, c, p)
+//@ lemma c20-caret-convex [C20] uses satisfiesCaretConstraint, (*Version).Compare: forall c, a, b, d *Version, p int :: trigger(satisfiesCaretConstraint(a, c, p), satisfiesCaretConstraint(d, c, p), a.Compare(b), b.Compare(d)) && c != nil && a != nil && b != nil && d != nil && nn(c) && nn(a) && nn(b) && nn(d) && c.major < 9223372036854775807 && c.minor < 9223372036854775807 && c.patch < 9223372036854775807 && a.Compare(b) <= 0 && b.Compare(d) <= 0 && satisfiesCaretConstraint(a, c, p) && satisfiesCaretConstraint(d, c, p) ==> satisfiesCaretConstraint(b, c, p)
+//@ lemma c20-tilde-equal [C20] uses satisfiesTildeConstraint, (*Version).Compare: forall c, v1, v2 *Version, p int :: trigger(satisfiesTildeConstraint(v1, c, p), satisfiesTildeConstraint(v2, c, p)) && c != nil && v1 != nil && v2 != nil && nn(c) && nn(v1) && nn(v2) && c.major < 9223372036854775807 && c.minor < 9223372036854775807 && v1.Compare(v2) == 0 ==> satisfiesTildeConstraint(v1, c, p) == satisfiesTildeConstraint(v2, c, p)
+//@ lemma c20-tilde-convex [C20] uses satisfiesTildeConstraint, (*Version).Compare: forall c, a, b, d *Version, p int :: trigger(satisfiesTildeConstraint(a, c, p), satisfiesTildeConstraint(d, c, p), a.Compare(b), b.Compare(d)) && c != nil && a != nil && b != nil && d != nil && nn(c) && nn(a) && nn(b) && nn(d) && c.major < 9223372036854775807 && c.minor < 9223372036854775807 && a.Compare(b) <= 0 && b.Compare(d) <= 0 && satisfiesTildeConstraint(a, c, p) && satisfiesTildeConstraint(d, c, p) ==> satisfiesTildeConstraint(b, c, p)
+// lifting to whole ranges: a range made of comparator, caret and tilde constraints treats versions that compare equal alike
+//@ spec plainOp(c *constraint) bool = c.operator == "=" || c.operator == "!=" || c.operator == "<" || c.operator == "<=" || c.operator == ">" || c.operator == ">="
+//@ lemma c20-range-equal [C20] uses c20-equal: forall vr *VersionRange, v1, v2 *Version :: vr != nil && v1 != nil && v2 != nil && wfRange(vr) && (forall i int :: 0 <= i && i < len(vr.constraints) ==> plainOp(vr.constraints[i])) && v1.Compare(v2) == 0 ==> ((forall i int :: 0 <= i && i < len(vr.constraints) ==> satisfiesConstraint(v1, vr.constraints[i])) == (forall i int :: 0 <= i && i < len(vr.constraints) ==> satisfiesConstraint(v2, vr.constraints[i])))
+// ... and the set a range without != accepts is convex in the order
+//@ lemma c20-range-convex [C20] uses c20-convex: forall vr *VersionRange, a, b, d *Version :: vr != nil && a != nil && b != nil && d != nil && wfRange(vr) && (forall i int :: 0 <= i && i < len(vr.constraints) ==> vr.constraints[i].version != nil && (vr.constraints[i].operator == "=" || vr.constraints[i].operator == "!=" || vr.constraints[i].operator == "<" || vr.constraints[i].operator == "<=" || vr.constraints[i].operator == ">" || vr.constraints[i].operator == ">=") && vr.constraints[i].operator != "!=") && a.Compare(b) <= 0 && b.Compare(d) <= 0 && (forall i int :: 0 <= i && i < len(vr.constraints) ==> satisfiesConstraint(a, vr.constraints[i])) && (forall i int :: 0 <= i && i < len(vr.constraints) ==> satisfiesConstraint(d, vr.constraints[i])) ==> (forall i int :: 0 <= i && i < len(vr.constraints) ==> satisfiesConstraint(b, vr.constraints[i]))
